@@ -607,7 +607,13 @@ func runTimed(tag string, o instOpts, prep func(in *inst), steps []step) {
 				in.tr.Emit("burst", "n", st.n*1500, "bad", bad.Load())
 				return
 			}
-			par(st.n, func(i int) { in.send([]string{"udp", "tcp"}[i%2], "127.0.1.1", mkq(st.name), 8*time.Second, nil) })
+			par(st.n, func(i int) {
+				src := "127.0.1.1"
+				if strings.HasPrefix(in.name, "p-ecs") && st.n > 1 { // hits from eight subnets (one client group)
+					src = fmt.Sprintf("127.0.%d.1", 1+i%8)
+				}
+				in.send([]string{"udp", "tcp"}[i%2], src, mkq(st.name), 8*time.Second, nil)
+			})
 		}()
 	}
 	wg.Wait()
@@ -745,6 +751,15 @@ func modeC08(thorough bool, only string) {
 			seq := []string{"r0t8d0", rc, rc}
 			add(fmt.Sprintf("p-badreply%d", i), base, func(in *inst) { in.ups["u1"].setSeq(pn, seq...) },
 				step{0, 1, pn}, step{ms(6300), 8, pn}, step{ms(6800), 4, pn}, step{ms(6900), 1, pn})
+		}
+		// ECS on, hits from several subnets of one client group while the refresh is slow: still one refresh per
+		// (question, client group)
+		{
+			eo := base
+			eo.ecs = true
+			pe := n("r0t8d0")
+			add("p-ecs", eo, func(in *inst) { in.ups["u1"].setSeq(pe, "r0t8d0", "r0t8d900") },
+				step{0, 1, pe}, step{ms(6300), 16, pe}, step{ms(6500), 8, pe}, step{ms(7400), 2, pe})
 		}
 		// the refresh exchange itself fails (undecodable reply / connection closed): the old entry stays usable
 		for i, rc := range []string{"r0t8d0fG", "r0t8d0fC"} {
